@@ -12,7 +12,7 @@ from ..poly import Poly, parr, z3mod
 from ..tv import Compiled, viol_terms, affine_in_z, discharge_row
 from ..util import quiet
 from ..oracle import Z3Env, cons_eval
-from ..rogen import core_specs, random_spec, desc_from_spec
+from ..rogen import core_specs, expset_specs, random_spec, desc_from_spec
 from ..smt import HarnessError, fval
 from ..harness import finding
 
@@ -42,7 +42,7 @@ META = dict(
 
 
 def cases(tier, seed, rnd):
-    specs = core_specs()
+    specs = core_specs() + expset_specs()
     n = 24 if tier == 'quick' else 600
     specs += [random_spec(rnd, i) for i in range(n)]
     return [dict(spec=s) for s in specs]
@@ -80,7 +80,7 @@ def run_case(case, ses):
         else:
             kind = 'robust-' + (row['uset'].kind if row['uset'] is not None else 'det')
         label = '%s/%s' % (spec['name'], row['label'])
-        core = not (row['uset'] is not None and row['uset'].kind in ('mixed', 'other'))
+        core = not (row['uset'] is not None and row['uset'].kind in ('mixed', 'other', 'exp'))
         if spec['name'].startswith('rand') and row['uset'] is not None and row['uset'].kind != 'poly':
             core = False     # nonlinear rows of seeded random members are stretch obligations (curated members stay core)
         res, model = discharge_row(ses, cm, vs, P, blocks, row, label, kind, eps, extra, core=core,
@@ -92,6 +92,20 @@ def run_case(case, ses):
             decided += 1
         elif res == 'sat':
             handle_cex(ses, spec, cm, row, model, vs)
+        elif row['uset'] is not None and row['uset'].kind == 'exp':
+            # the relaxed query (cone memberships weakened to pairing inequalities) was not refuted: that proves
+            # nothing either way.  Look for a REAL counterexample: real solver points of the real compiled
+            # program for several objectives, worst realisation by numeric maximisation over the true set.
+            data = numeric_expset_cex(spec, cm, row)
+            if data is not None:
+                ok, info = replay(data, want_info=True)
+                if ok:
+                    finding(ses, 'C01:%s:%s' % (spec['name'], row['label']),
+                            'model %s row %s: compiled-feasible point violates the robust row at z=%s by %.3g'
+                            % (spec['name'], row['label'], info.get('z'), info.get('viol', 0)), data, 'rsv.props.c01:replay')
+                    continue
+            ses.stats.undecided += 1
+            ses.stats.notes.append('undecided: %s (exp-cone set, relaxation %s)' % (label, res))
     if decided:
         ses.stats.nontrivial.add(spec['name'])
     layer_b(ses, spec, cm, rows)
@@ -99,6 +113,33 @@ def run_case(case, ses):
 
 
 # ------------------------------------------------------------------ counterexample handling
+def numeric_expset_cex(spec, cm, row, tries=12):
+    import random
+    from rsome.gcp import GCProg
+    from rsome import eco_solver
+    f = cm.formula
+    rnd = random.Random(11)
+    cols = sorted(set(cm.iface.values()))
+    for k in range(tries):
+        obj = np.array(f.obj, dtype=float).reshape(-1).copy()
+        if k:
+            for c in cols:
+                obj[c] = rnd.choice([-1, 1, 0.5, -0.5, 0, 2, -2])
+        g = GCProg(f.linear, f.const, f.sense, f.vtype, f.ub, f.lb, f.qmat, f.xmat, [], obj)
+        with quiet():
+            try:
+                sol = eco_solver.solve(g, display=False)
+            except Exception:
+                continue
+        if sol is None or sol.x is None:
+            continue
+        data = dict(spec=spec, row=row['label'], v=[float(t) for t in sol.x], tol='1/1000000')
+        ok, info = replay(data, want_info=True)
+        if ok:
+            return data
+    return None
+
+
 def worst_z(row, assign, U):
     """A realisation in U (floats) maximising the row at the numeric interface assignment."""
     (p,) = row['cons'].polys()
@@ -143,7 +184,7 @@ def handle_cex(ses, spec, cm, row, model, vs):
             % (spec['name'], row['label'], info.get('z'), info.get('viol', 0)), data, 'rsv.props.c01:replay')
 
 
-def replay(data, verbose=False, want_info=False):
+def replay(data, verbose=False, want_info=False, tol=Fraction(1, 10 ** 7)):
     """Re-build the model with the real code; check that v* is accepted by the real compiled
     program and that the user's row, evaluated by the real expression at a realisation of the set,
     is violated."""
@@ -151,7 +192,8 @@ def replay(data, verbose=False, want_info=False):
     cm = Compiled(desc_from_spec(spec))
     v = data['v']
     info = {}
-    bad = cm.cp.check_point(v, tol=Fraction(1, 10 ** 7))
+    tol = Fraction(data['tol']) if data.get('tol') else tol
+    bad = cm.cp.check_point(v, tol=tol)
     info['program_violations'] = bad[:3]
     if bad:
         if verbose:
@@ -240,7 +282,7 @@ def layer_b(ses, spec, cm, rows):
     m = cm.r.m
     with quiet():
         try:
-            if cm.cp.qmat:
+            if cm.cp.qmat or cm.cp.xmat:
                 from rsome import eco_solver as solver
                 m.solve(solver, display=False)
             else:
@@ -260,6 +302,20 @@ def layer_b(ses, spec, cm, rows):
         if not row['robust']:
             continue
         U = row['uset']
+        if U.kind == 'exp':
+            # exp is uninterpreted in the encodings: the solver's point is examined numerically (worst realisation by
+            # maximisation over the true set); only a reproduced violation is reported
+            data = dict(spec=spec, row=row['label'], v=[float(t) for t in x], tol='1/1000000')
+            ok, info = replay(data, want_info=True)
+            ses.stats.obligations += 1
+            ses.stats.kinds['solver-point-numeric'] = ses.stats.kinds.get('solver-point-numeric', 0) + 1
+            if ok:
+                finding(ses, 'C01:%s:%s' % (spec['name'], row['label']),
+                        'model %s row %s: solution returned by solve() violates the row at z=%s'
+                        % (spec['name'], row['label'], info.get('z')), data, 'rsv.props.c01:replay')
+            else:
+                ses.stats.discharged += 1
+            continue
         (p,) = row['cons'].polys()
         q = p.subs(assign)
         env = Z3Env()
